@@ -24,7 +24,10 @@ that what is left are decidable predicates on the registry and on the statements
   with `/`, and no step is empty, `.` or `..`, before or behind its prefix (RFC 7950 has no such
   steps; the Go code tolerates them);
 * `ModsAreModules reg`    — every loaded statement is a `module` / `submodule` statement (only needed
-  for "EVERY module has its tree"; the hypotheses of C07 need the trees of the modules with augments).
+  for "EVERY module has its tree"; the hypotheses of C07 need the trees of the modules with augments);
+  proved, together with `LoadedShape`, of every registry `Model.loadTexts` (= `Modules.Parse` per text)
+  produces (`loadTexts_registry_shape`).  `AugPosDistinct` is NOT derived from the parser model (C16's
+  `TruePos` gives each statement its position, not that sibling statements have different ones).
 
 `NoDupNames` (C07) and `KeysUnique` (C04) are the same condition on `Dir` (pairwise different
 sibling names at every node, `keysUnique_iff`); neither asks that names be non-empty, so no side
